@@ -74,9 +74,9 @@ impl RegisterEntry<'_> {
     ) -> String {
         fn amount_to_string(amount: &Decimal, scale: &Scale, width: usize) -> String {
             let prec = scale.get_precision(amount);
-            let amount_txt = format!(
-                "{:.prec$}",
-                amount.round_dp_with_strategy(prec as u32, RoundingStrategy::MidpointAwayFromZero)
+            let amount_txt = Scale::format_with_precision(
+                &amount.round_dp_with_strategy(prec as u32, RoundingStrategy::MidpointAwayFromZero),
+                prec,
             );
 
             if amount.is_sign_positive() && amount_txt.chars().count() >= width {
